@@ -28,7 +28,8 @@ ASSUMPTIONS = ["permitted compile failures are recognised by rustc error code E0
                "are against the stub", "edition 2021 scratch crate"]
 VERDICT_FIELDS = ["wf", "a_model_agrees_on_whole_output", "b_compiles_or_permitted_rejection",
                   "kf1_keyword_identifier", "kf2_duplicate_item_names", "kf3_vertex_struct_not_emitted",
-                  "kf4_vertex_param_clash", "kf5_derive_bound_not_met", "kf6_user_type_captures_template_name"]
+                  "kf4_vertex_param_clash", "kf5_derive_bound_not_met", "kf6_user_type_captures_template_name",
+                  "kf7_constant_named_like_a_template_binding"]
 
 PERMITTED = ("does not match WGSL", "derive(Pod) was applied to a type with padding")
 
@@ -70,6 +71,12 @@ def cases(rng, tier):
         out.append({"wgsl": p.render(), "family": "call_graph", "opts": dict(rng.choice(structcases.ALL_OPTS))})
     for c in c04.cases(rng, "quick")[:: max(1, 40 // scale)][: 12 * scale]:
         out.append({"wgsl": c["wgsl"], "family": "bind_groups", "opts": {}})
+    # constants named like the identifiers the template binds (known finding KF-C01-const-captures-binding) and, as a
+    # control, the same names in other letter cases (must compile)
+    for nm, rest in (("device", ""), ("entries", "override k: f32 = 1.0;"), ("value", "override k: f32 = 1.0;"),
+                     ("targets", ""), ("module", ""), ("Device", ""), ("SOURCE_", ""), ("Entries", "override k: f32 = 1.0;")):
+        out.append({"wgsl": "const %s: u32 = 7u;\n%s\n@fragment fn fs() -> @location(0) vec4<f32> { return vec4<f32>(0.0); }\n" % (nm, rest),
+                    "family": "binder_names", "opts": {}})
     for c in out:
         if c["opts"].get("mv") == "Nalgebra" and c["opts"].get("encase"):
             c["opts"]["encase"] = False      # encase's nalgebra impls need the real nalgebra crate (not available offline)
@@ -94,6 +101,7 @@ KF_PREDS = (
     'negb (forallb (fun v => str_nodup (ve_params v ++ (if ve_ov_param v then ["overrides"%string] else []))) (o_ventries o))',
     'negb (forallb struct_bounds_ok (o_structs o))',
     'existsb (fun n => existsb (String.eqb n) prelude_names) (map s_name (o_structs o))',
+    'const_captures_binder o',
 )
 
 
